@@ -135,7 +135,8 @@ def rule_inherit(ctx, py, R="C04.INHERIT"):
     for r, fact in want.items():
         ctx.check(r in got and fact in got[r], R, f, f._qual, "%s when %s" % (r, fact[0]), "",
                   "'inherit' / 'default' / explicit units are not resolved as documented")
-    ctx.check(pyfe.src(f.body[0]).replace(" ", "") == "v=d.get('units',default)", R, f, f._qual, "reads the canonical key "
+    first_ = pyfe.first_touching(f, {"d", "v", "default"})
+    ctx.check(first_ is not None and pyfe.src(first_).replace(" ", "") == "v=d.get('units',default)", R, f, f._qual, "reads the canonical key "
               "'units' with the caller's default", "", "")
     n = 0
     for rq, wq, cq in c12.PAIRS + [("rdspace.rdspace_from_dict", None, None)]:
